@@ -716,6 +716,22 @@ func init() {
 					}
 					units = append(units, Unit{"VerifC16", []string{s, vs[0], "equal", ""}}, Unit{"VerifC16", []string{s, vs[0], "equal", "v"}})
 				}
+				// one operand written twice (the multiset, not the set, is kept), and variables nobody registered
+				for _, s := range []string{"(and b0 b0 b1)", "(and b1 b0 b0)", "(or b0 b1 b0 b1)", "(and (> i0 1) b0 b0 b1)", "(and b0 (or b1 b1 b2) b0)", "(or (and b0 b1) (and b0 b1) b2)", "(and b0 b1 b0)"} {
+					for _, x := range varsOf(s) {
+						units = append(units, Unit{"VerifC16", []string{s, x, "pair", ""}})
+					}
+					units = append(units, Unit{"VerifC16", []string{s, "b0", "equal", ""}}, Unit{"VerifC16", []string{s, "b1", "equalx", "v"}}, Unit{"VerifC16", []string{s, "b0", "pair", "", "undef"}})
+				}
+				for _, s := range append(append([]string{}, extra...), "(and b0 b1)", "(or b0 b1 b2)", "(and (> i0 i1) b0)", "(or (= i0 1) (= i1 1) (= i2 1))") {
+					vs := varsOf(s)
+					for k, x := range vs {
+						if k == 0 || k == len(vs)-1 || k == 1 {
+							units = append(units, Unit{"VerifC16", []string{s, x, "pair", "", "undef"}})
+						}
+					}
+					units = append(units, Unit{"VerifC16", []string{s, vs[0], "equal", "", "undef"}}, Unit{"VerifC16", []string{s, vs[len(vs)-1], "pair", "vo", "undef"}})
+				}
 				// alias spellings of and/or are names of their own: a cost entry for one spelling says nothing about the others
 				for _, s := range []string{"(or (&& b0 b1) (and b2 b3))", "(or (and b0 b1) (&& b2 b3) (|| b4 b5))", "(and (= i0 1) (| b0 b1) (or b2 b3))",
 					"(& (|| b0 b1) (or b2 b3) b4)", "(and (or b0 b1) (& b2 b3) (&& b4 b5))", "(|| (and b0 b1) (& b2 b3) (> i0 i1))"} {
@@ -751,7 +767,7 @@ func init() {
 		Reach: []string{"pair", "p3", "p4", "p5", "equal-cost-siblings", "special-cost"},
 		Bounds: func(tier string) map[string]interface{} {
 			maxM, _ := shapeTierParams(tier)
-			return map[string]interface{}{"shapes": "all typed shapes with ≤" + itoa(maxM) + " internal nodes containing and/or (all-variable leaves) + 10 wider shapes (≤4 and/or operands) + 6 shapes mixing the alias spellings & && | || with and/or; the raised name is a variable, a custom operator or an operator name (the first two of each shape, every one in the alias shapes) + and/or with 5, 12, 13, 14, 20, 33 tying operands (one name with its own cost)",
+			return map[string]interface{}{"shapes": "all typed shapes with ≤" + itoa(maxM) + " internal nodes containing and/or (all-variable leaves) + 10 wider shapes (≤4 and/or operands) + 6 shapes mixing the alias spellings & && | || with and/or; the raised name is a variable, a custom operator or an operator name (the first two of each shape, every one in the alias shapes) + and/or with 5, 12, 13, 14, 20, 33 tying operands (one name with its own cost) + 7 shapes with one operand written twice + 14 shapes with nothing registered (AllowUndefinedVariable)",
 				"costs": "integer-valued symbolic costs in [-10^6,10^6] for up to 3 other names, the `variable`/`operator` defaults present or absent; the raised entry ranges up to 2^40; concrete NaN/±Inf/-0/0.5/±1e300 for P1 only",
 				"sort":  "every comparison outcome of the real sort.stable_func on symbolic costs is a path"}
 		},
